@@ -42,6 +42,12 @@ type tcase struct {
 	needB  []string // primitive hash calls recorded for this case
 	needH  []string
 	fl     []func(*floats.Rec) // float primitives recorded for this case
+	def    *sharedDef          // a definition shared by many cases of a shard (e.g. the document)
+}
+
+type sharedDef struct {
+	name   string
+	render func(f *coqgen.File) string
 }
 
 type drv struct {
@@ -71,6 +77,14 @@ func (d *drv) flStr(s string)  { d.flJ = append(d.flJ, func(fr *floats.Rec) { fr
 func (d *drv) flBits(b uint64) { d.flJ = append(d.flJ, func(fr *floats.Rec) { fr.AddBits(b) }) }
 func (d *drv) flInt(z *big.Int, unsigned bool) {
 	d.flJ = append(d.flJ, func(fr *floats.Rec) { fr.AddInt(z, unsigned) })
+}
+
+// addCaseDef: a case whose term refers to a definition shared within the shard
+func (d *drv) addCaseDef(def *sharedDef, term func(f *coqgen.File) string, class string, input any) {
+	d.addCase(term, class, input)
+	d.mu.Lock()
+	d.cases[len(d.cases)-1].def = def
+	d.mu.Unlock()
 }
 
 func lit(s string) func(*coqgen.File) string { return func(*coqgen.File) string { return s } }
@@ -134,6 +148,7 @@ func (d *drv) writeShards() error {
 		name := filepath.Join(d.cfg.OutDir, fmt.Sprintf("cases_C12_%03d.v", s))
 		var cs []string
 		needB, needH := map[string]bool{}, map[string]bool{}
+		defs := map[string]bool{}
 		fr := floats.New()
 		for i := lo; i < hi; i++ {
 			c := d.cases[i]
@@ -147,6 +162,10 @@ func (d *drv) writeShards() error {
 			}
 			for _, fn := range c.fl {
 				fn(fr)
+			}
+			if c.def != nil && !defs[c.def.name] {
+				defs[c.def.name] = true
+				f.Add("Definition " + c.def.name + " := " + c.def.render(f) + ".")
 			}
 		}
 		f.Add("Definition prim_ : raw_prim := " + d.prims.Coq(f, needB, needH) + ".")
